@@ -36,6 +36,10 @@ open Scenic.Choose
 tuple-form weight 1, the shortcut fires for exactly one enabled item and takes element 0, zero weights dropped -/
 theorem gen_config_wf : Scenic.Gen.chooseConfig.WF := by decide
 
+/-- the shuffle scheduler of the current source works on a copy of a dict operand (`subs = dict(subs[0])`, extracted by
+the translator): re-decided on every run; fails if the copy is ever dropped again -/
+theorem gen_copies_operand : Scenic.Gen.chooseConfig.copyOperand = true := by decide
+
 /-! ## `do choose` -/
 
 /-- **choose_prob.** With distinct items, non-negative enabled weights and positive total enabled weight,
@@ -222,8 +226,21 @@ theorem named_operand_is_literal (c : Config) (hc : c.copyOperand = true) (env :
 example : Dist.prob (exec ⟨1, 1, 0, true, true⟩ ⟨fun _ _ => true, fun _ _ => 1⟩ [.shuffleVar 0, .shuffleVar 0] 0 []
     [[⟨1, 1⟩, ⟨2, 3⟩]]) (fun o => decide (o.log.length = 4)) = 1 := by decide +kernel
 
-/-- **shuffleVar_consumes** (what the code does when `copyOperand = false`): `do shuffle d` runs the items `d` holds
-and leaves `d` empty for everything that follows. -/
+/-- **named operand on the generated constants** (no hypothesis: the side condition `gen_copies_operand` is re-decided
+on the data extracted from the current source). In the code as it is, `do choose d` / `do shuffle d` on a dict held in a
+variable is the statement with the dict written out, any number of uses in any order. -/
+theorem named_operand_is_literal_gen (env : Env) (ss : List Stmt) (t : Nat) (vals : List Int) (st : Store) :
+    exec Scenic.Gen.chooseConfig env ss t vals st =
+      exec Scenic.Gen.chooseConfig env (ss.map (Stmt.resolve st)) t vals st :=
+  named_operand_is_literal _ gen_copies_operand env ss t vals st
+
+/-- so the second `do shuffle d` runs every item of `d` once again, on the generated constants -/
+example : Dist.prob (exec Scenic.Gen.chooseConfig ⟨fun _ _ => true, fun _ _ => 1⟩ [.shuffleVar 0, .shuffleVar 0] 0 []
+    [[⟨1, 1⟩, ⟨2, 3⟩]]) (fun o => decide (o.log.length = 4)) = 1 := by
+  rw [named_operand_is_literal_gen]; decide +kernel
+
+/-- **shuffleVar_consumes** (what a scheduler that does *not* copy would do, `copyOperand = false` — the behaviour of the
+source before repair `867d4ecd`): `do shuffle d` runs the items `d` holds and leaves `d` empty for everything that follows. -/
 theorem shuffleVar_consumes (c : Config) (hc : c.copyOperand = false) (env : Env) (k : Nat) (rest : List Stmt) (t : Nat)
     (vals : List Int) (st : Store) :
     exec c env (.shuffleVar k :: rest) t vals st =
@@ -231,10 +248,12 @@ theorem shuffleVar_consumes (c : Config) (hc : c.copyOperand = false) (env : Env
   have h : afterShuffle c st k = st.set k [] := by simp [afterShuffle, hc]
   simp only [exec, h]
 
-/-- **recorded defect (negation witness).** Without operand copying the statement "`do shuffle` runs every listed item
-exactly once" fails for the second of two `do shuffle d` on the same variable: it runs nothing (the two-statement body
-is the same as `do shuffle {A, B}; do shuffle {}`), and a `do choose d` after it deadlocks. -/
-theorem shuffle_consumes_operand_witness :
+/-- **the side condition is needed (regression witness).** Were the copy dropped (`copyOperand = false`), "`do shuffle`
+runs every listed item exactly once" would fail for the second of two `do shuffle d` on the same variable: it runs nothing
+(the two-statement body is the same as `do shuffle {A, B}; do shuffle {}`), and a `do choose d` after it deadlocks.
+This is the defect repaired by `867d4ecd`; the model with the extracted `copyOperand = true` does not have it
+(`named_operand_is_literal_gen`). -/
+theorem operand_copy_is_needed :
     exec ⟨1, 1, 0, true, false⟩ ⟨fun _ _ => true, fun _ _ => 1⟩ [.shuffleVar 0, .shuffleVar 0] 0 [] [[⟨1, 1⟩, ⟨2, 3⟩]] =
         exec ⟨1, 1, 0, true, false⟩ ⟨fun _ _ => true, fun _ _ => 1⟩ [.shuffle [⟨1, 1⟩, ⟨2, 3⟩], .shuffle []] 0 [] [] ∧
       Dist.prob (exec ⟨1, 1, 0, true, false⟩ ⟨fun _ _ => true, fun _ _ => 1⟩ [.shuffleVar 0, .chooseVar 0] 0 []
